@@ -4,6 +4,8 @@
 -/
 import Csvq.Lemmas.SortSpec
 import Csvq.Gen.SortFacts
+import Csvq.Gen.LimitFacts
+import Csvq.Ref.LimitFacts
 namespace Csvq.C07
 open Csvq
 
@@ -221,6 +223,31 @@ theorem gen_strict_prefix_reviewed :
        "compareValue.String)", "}", "}"] ∧
     Gen.strictPrefixEquiv =
       ["{", "return", "bytes.Equal(v.SerializedKey.Bytes(),", "compareValue.SerializedKey.Bytes())", "}"] := by
+  decide
+
+/-! ### OFFSET / LIMIT / WITH TIES: the statements of View.Offset and View.Limit and every write of the sort state,
+    regenerated on every run (extract/limitfacts) and pinned against the reviewed lists of Ref/LimitFacts.lean -/
+
+/-- WITH TIES is what the clause says — `Restriction.Token == TIES`, so `LIMIT n ONLY` / `FETCH FIRST n ROWS ONLY`
+    do not extend the cut — and PERCENT is the unit token -/
+theorem gen_limit_predicates :
+    Gen.limitClausePredicates = ["LimitClause.WithTies: return e.Restriction.Token == TIES",
+      "LimitClause.Percentage: return e.Unit.Token == PERCENT"] := by decide
+
+theorem gen_view_offset_eq_ref : Gen.fxViewOffset = Ref.fxViewOffset := by rfl
+
+theorem gen_view_limit_eq_ref : Gen.fxViewLimit = Ref.fxViewLimit := by rfl
+
+theorem gen_sort_state_writes_eq_ref : Gen.sortStateWrites = Ref.sortStateWrites := by rfl
+
+/-- the sort keys of an analytic function's own OVER (ORDER BY …) do not survive its evaluation, and View.Fix
+    resets the whole sort state: a query without ORDER BY reaches View.Limit with `sortValuesInEachRecord = nil`,
+    where WITH TIES is ignored (`gen_view_limit_eq_ref`) -/
+theorem gen_analytic_sort_state_reset :
+    "view.go:View.evalAnalyticFunction:sortValuesInEachRecord:=nil" ∈ Gen.sortStateWrites ∧
+    "view.go:View.Fix:sortValuesInEachRecord:=nil" ∈ Gen.sortStateWrites ∧
+    "view.go:View.Fix:offset:=0" ∈ Gen.sortStateWrites ∧
+    (Gen.sortStateWrites.filter (fun w => w = "view.go:View.OrderBy:sortValuesInEachRecord:=value")).length = 1 := by
   decide
 
 /-! ## non-vacuity -/
